@@ -9,7 +9,10 @@ let dispatch = function
   | "round" -> let x = next_q () in p_z (run_round x)
   | "st_ta" -> let w = next_mat next_q in let thr = next_q () in let c = next_bool () in p_obs (run_st_ta w thr c)
   | "st_tp" -> let w = next_mat next_q in let p = next_q () in let c = next_bool () in p_opt p_obs (run_st_tp w p c)
-  | "st_wc" -> let w = next_mat next_q in let m = next_list next_nat in let c = next_bool () in p_wc p_obs (run_st_wc w m c)
+  | "st_wc" -> let w = next_mat next_q in let m = next_list next_nat in let f = next_bool () in let c = next_bool () in
+      (match run_st_wc w m f c with
+       | (code, None) -> (match int_of_nat code with 0 -> ps "\"raise\"" | 1 -> ps "\"param\"" | _ -> ps "\"nan\"")
+       | (_, Some o) -> p_obs o)
   | "wc_str" -> let w = next_mat next_q in let m = next_list next_nat in p_wc (p_mat p_q) (run_wc_str w m)
   | f -> failwith ("unknown function " ^ f)
 let () = main dispatch
